@@ -67,6 +67,8 @@ func (r *EntityLocal) GetOrAddFeature(featureType model.FeatureTypeType, role mo
 		return f
 	}
 
+	verifPoint("GetOrAddFeature.miss")
+
 	r.mux.Lock()
 	defer r.mux.Unlock()
 
@@ -145,6 +147,8 @@ func (r *EntityLocal) AddUseCaseSupport(
 
 	data.AddUseCaseSupport(address, actor, useCaseName, useCaseVersion, useCaseDocumemtSubRevision, useCaseAvailable, scenarios)
 
+	verifPoint("UseCase.beforeStore")
+
 	nodeMgmt.SetData(model.FunctionTypeNodeManagementUseCaseData, data)
 }
 
@@ -185,6 +189,8 @@ func (r *EntityLocal) SetUseCaseAvailability(
 
 	data.SetAvailability(address, actor, useCaseName, available)
 
+	verifPoint("UseCase.beforeStore")
+
 	nodeMgmt.SetData(model.FunctionTypeNodeManagementUseCaseData, data)
 }
 
@@ -207,6 +213,8 @@ func (r *EntityLocal) RemoveUseCaseSupport(
 
 	data.RemoveUseCaseSupport(address, actor, useCaseName)
 
+	verifPoint("UseCase.beforeStore")
+
 	nodeMgmt.SetData(model.FunctionTypeNodeManagementUseCaseData, data)
 }
 
@@ -225,6 +233,8 @@ func (r *EntityLocal) RemoveAllUseCaseSupports() {
 	}
 
 	data.RemoveUseCaseDataForAddress(address)
+
+	verifPoint("UseCase.beforeStore")
 
 	nodeMgmt.SetData(model.FunctionTypeNodeManagementUseCaseData, data)
 }
